@@ -73,8 +73,15 @@ pub fn evaluate_sub_op(a: &Val, b: &Val) -> Result<Val> {
 pub fn evaluate_mul_op(a: &Val, b: &Val) -> Result<Val> {
 	use Val::*;
 	Ok(match (a, b) {
-		(Str(s), Num(c)) => Val::string(s.to_string().repeat(c.get() as usize)),
-		(Num(c), Str(s)) => Val::string(s.to_string().repeat(c.get() as usize)),
+		(Str(s), Num(c)) | (Num(c), Str(s)) => {
+			let s = s.to_string();
+			let count = c.get() as usize;
+			// str::repeat panics when the length of the result exceeds the maximal allocation
+			if s.len().checked_mul(count).map_or(true, |len| len > isize::MAX as usize) {
+				bail!("repeated length overflow")
+			}
+			Val::string(s.repeat(count))
+		}
 
 		(Num(v1), Num(v2)) => Val::try_num(v1.get() * v2.get())?,
 
